@@ -188,31 +188,28 @@ def decomp (c : Case) : Verdict :=
     match allocFail c tag with
     | some v => v
     | none =>
-    -- D18 monitor: the buffer really was allocated from a declared length far beyond the certificate limit
+    -- D18 regression monitor: the buffer really was allocated from a declared length far beyond the certificate limit
     if decl ≥ 4194304 ∧ o.getD "allocge" "0" = "1" ∧ res ≠ "unadvertised" ∧ res ≠ "unsupported" then
       .propFail tag s!"alloc-from-declared-length decl={decl} limit={maxHandshakeCert}"
     else
     let m : CompCert := ⟨alg, decl, []⟩
+    -- decoder-independent cases: an intact stream of the 479-byte certificate message (the model only needs
+    -- its length; `certOk` = "the whole certificate message is there")
     let exact := content = "cert" ∧ body = "good"
-    let (mres, _) := decompress adv m (fun n => some (List.replicate (min n plain) 0)) (fun out => out.length == plain)
+    let (mres, malloc) := decompress adv m (some (List.replicate plain 0)) (fun out => out.length == plain)
     let rstr : DecompRes → String
-      | .unadvertised => "unadvertised" | .unsupported => "unsupported" | .decoderErr => "decoder"
-      | .lenMismatch => "lenmismatch" | .badCert => "badcert" | .ok => "ok"
+      | .unadvertised => "unadvertised" | .tooLarge => "toolarge" | .unsupported => "unsupported"
+      | .decoderErr => "decoder" | .lenMismatch => "lenmismatch" | .lenExceeds => "lenexceeds"
+      | .badCert => "badcert" | .ok => "ok"
     let impl := s!"res={res} alert={o.getD "alert" "?"}"
     let alertOf : DecompRes → String
       | .ok => "-" | .badCert => "10" | _ => "42"
     let model := s!"res={rstr mres} alert={alertOf mres}"
-    if mres = .unadvertised ∨ mres = .unsupported then cmp tag impl model
-    else if exact then
-      -- decoder-independent cases (a 479-byte certificate, intact stream). Which error an inconsistent
-      -- declared length yields is C21's subject (D14/D18 are being repaired there: "longer than declared"
-      -- and "beyond the limit" get their own errors), so the tie here is acceptance vs. error return only.
-      if mres = .ok then cmp tag impl model
-      else if impl = model then .ok tag
-      else if res ≠ "ok" ∧ o.getD "out" "?" = "err" then .ok s!"{tag},other-error-class"
-      else .diff tag model
-    else if res = "ok" ∨ res = "decoder" ∨ res = "lenmismatch" ∨ res = "badcert" then .ok tag
-    else .diff tag "res∈{ok,decoder,lenmismatch,badcert}"
+    -- refusals that happen before the decoder is consulted are predicted exactly, whatever the body is
+    if malloc.isNone then cmp tag impl model
+    else if exact then cmp tag impl model
+    else if res = "ok" ∨ res = "decoder" ∨ res = "lenmismatch" ∨ res = "lenexceeds" ∨ res = "badcert" then .ok tag
+    else .diff tag "res∈{ok,decoder,lenmismatch,lenexceeds,badcert}"
   | _, _, _, _ => .bad "decomp: bad fields"
 
 /-- `c33_conn`: one outgoing server handshake message was replaced by `m`. -/
